@@ -48,7 +48,7 @@ METHODS = ["batch_xml", "batch_csv", "acq_method_xml", "alphabetical"]
 ENTRY_POINTS = ["load_binary", "load_csv", "load"]
 # which options an entry point takes (collection_methods is taken by all of them)
 TAKES = {"load_binary": ("cps", "full"), "load_csv": ("use_acq", "full"), "load": ("cps", "use_acq", "full"), "collect_datafiles": ()}
-KWARG = {"cps": "counts_per_second", "use_acq": "use_acq_for_names", "full": "full"}
+KWARG = {"cps": "counts_per_second", "use_acq": "use_acq_for_names", "full": "full", "drop": "drop_names"}
 
 
 def styled(name, style):
@@ -130,8 +130,8 @@ class C02(Prop):
         "histories: a history has its own directory (named by the hash of the case), so its verdict does not depend on what the worker process "
         "imported before; what the caller does to returned objects is: overwrite arrays in place, empty the params dict, reverse and extend "
         "the returned list (objects that refuse are left alone: the property does not demand writable results)",
-        "call options: drop_names is left at its default in every call (the property does not say what an image with a kept time column or a "
-        "dropped element is); an omitted option is modelled by the default of the current signature; counts_per_second=True is only called on "
+        "call options: drop_names is passed or omitted like the other options; what is compared is the whole returned array (every field "
+        "left, a kept time field included: last field of load_binary's array, first of load_csv's); an omitted option is modelled by the default of the current signature; counts_per_second=True is only called on "
         "count-valued batches (bit-pattern batches hold NaNs/infinities that the exact division of the model does not describe)",
         "scantime is compared to within 0.5e-4 of the exact mean interval (the code rounds to 4 places) and, for the CSV import, only when no "
         "line's CSV is missing (DESIGN 5.2 boundary decision; counted as feature 'scantime-not-compared:blank-line')",
@@ -183,6 +183,52 @@ class C02(Prop):
             nums.add(digits(nm))
             names.append(nm)
         return names
+
+    STAMP_STYLES = ["increasing", "increasing", "increasing", "dst-end", "clock-back", "equal", "missing", "mixed-offsets", "widths", "reversed"]
+
+    @staticmethod
+    def gen_stamps(rng, L, style):
+        """time stamps of L log entries in log (= acquisition) order -> (AcqDateTime texts of BatchLog.xml, 'Acq. Date-Time' texts of
+        BatchLog.csv); None = the entry carries no stamp.  MassHunter writes local time + UTC offset: the TEXTS do not increase in
+        log order when the run crosses the end of daylight saving (+11:00 -> +10:00), when the PC clock is set back during the
+        run, when entries carry different offsets or widths; they may be equal or absent."""
+        import datetime as dt
+        t = dt.datetime(2021, 4, 4, 1, rng.randint(0, 59), rng.randint(0, 59)) + dt.timedelta(minutes=rng.randint(0, 90))
+        off = dt.timedelta(hours=11)
+        cut = rng.randint(1, max(1, L - 1))
+        xml, csv = [], []
+        for i in range(L):
+            step = dt.timedelta(seconds=rng.randint(20, 1500))
+            if style == "equal":
+                step = dt.timedelta(0)
+            elif style == "reversed":
+                step = -step
+            elif style == "clock-back" and i == cut:
+                step = -dt.timedelta(minutes=rng.randint(5, 200))
+            elif style == "dst-end" and i == cut:
+                off = dt.timedelta(hours=10)          # the same instant is one hour earlier on the local clock
+                step = step - dt.timedelta(hours=1)
+            if i:
+                t = t + step
+            o = off
+            if style == "mixed-offsets":
+                o = dt.timedelta(minutes=rng.choice([660, 600, 0, 0, -300, 330, 570]))
+            local = t if style != "mixed-offsets" else t - off + o    # the same instants, written with another offset
+            sign = "-" if o < dt.timedelta(0) else "+"
+            hh, mm = divmod(abs(int(o.total_seconds())) // 60, 60)
+            text = local.strftime("%Y-%m-%dT%H:%M:%S") + f"{sign}{hh:02d}:{mm:02d}"
+            if style == "mixed-offsets" and o == dt.timedelta(0) and rng.random() < 0.5:
+                text = local.strftime("%Y-%m-%dT%H:%M:%S") + "Z"
+            if style == "widths":
+                text = rng.choice([text, local.strftime("%Y-%m-%dT%H:%M:%S"), local.strftime("%Y-%m-%dT%H:%M:%S") + f".{rng.randint(0, 9999999):07d}" + text[19:],
+                                   local.strftime("%Y-%m-%dT%H:%M") + text[19:]])
+            h12 = local.hour % 12 or 12
+            ctext = f"{local.day}/{local.month:02d}/{local.year} {h12}:{local.minute:02d}:{local.second:02d} {'AM' if local.hour < 12 else 'PM'}"
+            if style == "missing" and rng.random() < 0.5:
+                text, ctext = None, None
+            xml.append(text)
+            csv.append(ctext)
+        return xml, csv
 
     def gen_values(self, rng, mode, R, k, fixed_acc=None):
         """R x k float64 bit tokens.  `fixed_acc` (accumulation times): count values whose counts per second lie in
@@ -249,7 +295,7 @@ class C02(Prop):
         n_prev = len(names)
         if kind == "same":          # the very same batch, imported again (by other calls)
             c = copy.deepcopy(prev)
-            c["calls"] = self.gen_calls(rng, c["methods"], c["mode"] == "counts", 3)
+            c["calls"] = self.gen_calls(rng, c["methods"], c["mode"] == "counts", 3, c.get("masses") or (), c["msms"])
             c["methods"] = rng.choice([c["methods"], rng.sample(METHODS, rng.randint(1, 4))])
             return c
         if kind == "reordered":     # the same data files, acquired (logged) in the opposite order
@@ -264,7 +310,7 @@ class C02(Prop):
                 top = max(ids) if ids else 0
                 c["acq"]["samples"] = [{**x, "id": None if x["id"] is None else top - x["id"]} for x in c["acq"]["samples"]]
             rng.shuffle(c["listing"])
-            c["calls"] = self.gen_calls(rng, c["methods"], c["mode"] == "counts", 2)
+            c["calls"] = self.gen_calls(rng, c["methods"], c["mode"] == "counts", 2, c.get("masses") or (), c["msms"])
             return c
         if kind in ("same-shape", "same-masses"):
             # the same lines, scans, number of masses, metadata files: other values, times, acquisition order — and, for
@@ -299,6 +345,36 @@ class C02(Prop):
         return {"kind": "history", "steps": steps, "kinds": list(kinds), "stamps": stamps,
                 "edit": (rng.random() < 0.6 or "same" in kinds) if edit is None else edit}
 
+    def drop_grid_cases(self):
+        """`drop_names` x counts / counts per second x full, for every entry point, on batches whose masses all have different
+        accumulation times: single quad with 4 masses, MS/MS with 3 (the CSV header names differ from the binary ones), and
+        an MS/MS batch with an unreadable binary (`load` falls back to the CSV import)"""
+        import random
+        accs = ["0.05", "0.1", "0.159999996423721", "0.167999997735023"]
+        for gi, (msms, k, unreadable) in enumerate(((False, 4, False), (True, 3, False), (True, 3, True))):
+            rng = random.Random(f"C02-dropgrid-{gi}")
+            elems = sorted(rng.sample(ISOTOPES, k), key=lambda e: e[1])
+            masses = [{"name": nm, "pre": mz, "pro": mz + (16 * (j + 1) if msms else 0), "acctime": accs[j]} for j, (nm, mz) in enumerate(elems)]
+            methods = ["batch_xml"]
+            c = self.build(rng, n=2, R=3, mode="counts", msms=msms, masses=masses, has_xadd=True, has_xml=True, has_csv=False, has_acq=True,
+                           dirty=False, missing=False, csv_mode="all", odd=None, nodigit=False, badindex=False, large=False, tie=None,
+                           methods=methods, decimals=2)
+            for j, f in enumerate(c["files"]):
+                f["binary"] = not (unreadable and j == 0)
+            e, cn = self.field_names(c["masses"], c["msms"])
+            drops = [None, [], ["Time"], ["Time", e[0]], ["Time", e[len(e) // 2]], ["Time", e[-1]], [e[0], e[-1]], [e[1]],
+                     ["Time_[Sec]", cn[0]], ["Time", "Time_[Sec]", cn[1], e[1]], ["Zz999"], ["Time", "Time_[Sec]"] + e + cn]
+            calls = []
+            for fn in ENTRY_POINTS:
+                for cps in ((None, True) if "cps" in TAKES[fn] else (None,)):
+                    for full in (None, True):
+                        for use_acq in ((None, False) if (fn != "load_binary" and msms) else (None,)):
+                            for dn in drops:
+                                calls.append(self.call(fn, methods=methods, cps=cps, use_acq=use_acq, full=full, drop=dn))
+            c["calls"] = calls
+            c["edit"] = False
+            yield c
+
     def class_cases(self):
         """one or two batches of every name style, MS/MS tie, log shape, export-presence pattern and time style, so that
         reaching those classes does not depend on the seed"""
@@ -331,6 +407,15 @@ class C02(Prop):
             i += 1
             yield self.build(rng, n=3, k=2, R=3, mode="counts", dirty=False, has_xml=True, csv_mode=csv_mode, methods=["batch_xml"],
                              time_style="irregular", decimals=[4, 6, 8, 0][i % 4], **common)
+        # log entries whose time stamps do not increase as text (end of daylight saving, clock set back, mixed offsets and
+        # widths, decreasing), equal or missing stamps: each style read through either log first
+        for style in ("dst-end", "clock-back", "equal", "missing", "mixed-offsets", "widths", "reversed"):
+            for methods in (["batch_xml"], ["batch_csv", "batch_xml"]):
+                rng = random.Random(f"C02-class-{i}")
+                i += 1
+                yield self.build(rng, n=4 + i % 2, k=1, R=2, stamp_style=style, has_xml=True, has_csv=True, has_acq=False,
+                                 dirty=bool(i % 3 == 0), methods=methods, **common)
+        yield from self.drop_grid_cases()
         rng = random.Random(f"C02-class-{i}")
         yield self.build(rng, n=2, k=60, R=7, mode="counts", large=True, dirty=False, has_xml=True, csv_mode="all", methods=["batch_xml"],
                          odd=None, badindex=False, nodigit=False, missing=False)
@@ -368,17 +453,47 @@ class C02(Prop):
         yield {"kind": "history", "steps": [a, b, copy.deepcopy(a)], "kinds": ["scan-type"], "stamps": ["preserved"] * 3, "edit": True}
 
     @staticmethod
-    def call(fn, methods=None, cps=None, use_acq=None, full=None, path="Path"):
+    def call(fn, methods=None, cps=None, use_acq=None, full=None, path="Path", drop=None):
         """one call of an entry point: an option is a value, or None = the caller omits it (the default of the signature
         applies: collection_methods ['batch_xml', 'batch_csv'], counts_per_second False, use_acq_for_names True, full False =
         the bare image is returned); `path` = the batch is named by a pathlib.Path or by a str"""
-        d = {"fn": fn, "methods": methods, "cps": cps, "use_acq": use_acq, "full": full, "path": path}
+        d = {"fn": fn, "methods": methods, "cps": cps, "use_acq": use_acq, "full": full, "path": path,
+             # drop_names: None = omitted (the time field is dropped), else the list passed (collect_datafiles takes none)
+             "drop": None if (drop is None or fn == "collect_datafiles") else list(drop)}
         for opt in ("cps", "use_acq", "full"):
             if opt not in TAKES[fn]:
                 d[opt] = None
         return d
 
-    def gen_calls(self, rng, methods, rational, count):
+    @staticmethod
+    def field_names(masses, msms):
+        """(fields of load_binary's array, fields of load_csv's array without / with the renaming from the method file)"""
+        e = [f"{m['name']}{m['pre']}->{m['pro']}" if msms else f"{m['name']}{m['pre']}" for m in masses]
+        c = [f"{m['name']}{m['pre']}_->_{m['pro']}" if msms else f"{m['name']}{m['pre']}" for m in masses]
+        return e, c
+
+    @staticmethod
+    def gen_drop(rng, masses, msms):
+        """a `drop_names` argument: omitted (half of the calls), nothing, the time field only, the time field and one element
+        (first / middle / last), several elements, a name that is no field, the time field kept and an element dropped"""
+        e, c = C02.field_names(masses, msms)
+        c_ = rng.random()
+        if c_ < 0.5 or not e:
+            return None
+        times = rng.choice([["Time"], ["Time", "Time_[Sec]"], ["Time_[Sec]"], []])
+        pick1 = lambda: rng.choice([e[0], e[len(e) // 2], e[-1], rng.choice(e), rng.choice(c)])
+        kind = rng.choice(["none", "time", "one", "one", "one", "several", "unknown"])
+        if kind == "none":
+            return []
+        if kind == "time":
+            return times
+        if kind == "one":
+            return times + [pick1()]
+        if kind == "several":
+            return times + rng.sample(e + c, rng.randint(2, min(len(e + c), 4)))
+        return times + ["Zz999", pick1()]
+
+    def gen_calls(self, rng, methods, rational, count, masses=(), msms=False):
         """`count` calls with independently drawn option tuples (each option omitted / False / True), plus now and then the
         collection itself on a str path"""
         calls = []
@@ -387,7 +502,8 @@ class C02(Prop):
             tri = lambda: rng.choice([None, False, True])
             ms = rng.choice([None, list(methods), list(methods), rng.sample(METHODS, rng.randint(1, 4))])
             calls.append(self.call(fn, methods=ms, cps=tri() if rational else rng.choice([None, False]), use_acq=tri(),
-                                   full=rng.choice([None, False, False, True]), path=rng.choice(["Path", "str"])))
+                                   full=rng.choice([None, False, False, True]), path=rng.choice(["Path", "str"]),
+                                   drop=self.gen_drop(rng, list(masses), msms)))
         if rng.random() < 0.3:
             calls.append(self.call("collect_datafiles", methods=list(methods), path=rng.choice(["Path", "str", "str"])))
         return calls
@@ -544,10 +660,14 @@ class C02(Prop):
         has_xml = pick("has_xml", rng.random() < 0.7)
         has_csv = pick("has_csv", rng.random() < 0.7)
         has_acq = pick("has_acq", rng.random() < 0.6)
-        xml_entries = [{"result": e["result"], "file": e["file"]} for e in log]
+        stamp_style = pick("stamp_style", "increasing" if pick("fixed_width", False) else rng.choice(self.STAMP_STYLES))
+        sx, sc = self.gen_stamps(rng, len(log), stamp_style)
+        if stamp_style == "increasing" and pick("fixed_width", False):   # one text width
+            sx, sc = ["2020-11-16T13:08:48+11:00"] * len(log), ["16/11/2020 1:08:48 PM"] * len(log)
+        xml_entries = [{"result": e["result"], "file": e["file"], "stamp": sx[i]} for i, e in enumerate(log)]
         if has_xml and not has_csv and rng.random() < 0.1:  # an entry without DataFileName (XML only)
-            xml_entries.insert(rng.randint(0, len(xml_entries)), {"result": "Pass", "file": None})
-        csv_rows = [{"id": i + 1, "file": e["file"], "result": e["result"]} for i, e in enumerate(log)]
+            xml_entries.insert(rng.randint(0, len(xml_entries)), {"result": "Pass", "file": None, "stamp": rng.choice(sx + [None])})
+        csv_rows = [{"id": i + 1, "file": e["file"], "result": e["result"], "stamp": sc[i]} for i, e in enumerate(log)]
         acq = None
         if has_acq:
             # the sample list: the planned acquisitions, SampleID increasing in the planned order
@@ -673,7 +793,7 @@ class C02(Prop):
                 "edit": rng.random() < 0.5}
         # the entry points called the way callers do: options given or left to their defaults (drawn last: the batch above
         # is the one the same PRNG produced before this class existed)
-        case["calls"] = self.gen_calls(rng, nm_methods, mode == "counts", pick("n_calls", 3))
+        case["calls"] = self.gen_calls(rng, nm_methods, mode == "counts", pick("n_calls", 3), masses, msms)
         return case
 
     @staticmethod
@@ -965,6 +1085,8 @@ class C02(Prop):
                 e[opt] = None if v is None else bool(v)
             if e["cps"] and case["mode"] != "counts":
                 e["cps"] = False
+            dn = d.get("drop")
+            e["drop"] = None if (dn is None or d["fn"] == "collect_datafiles") else [str(x) for x in dn]
             if e["fn"] == "collect_datafiles" and e["methods"] is None:
                 e["methods"] = list(case["methods"])
             out.append(e)
@@ -976,6 +1098,8 @@ class C02(Prop):
         path = str(b) if d["path"] == "str" else b
         args = (path,) if d["methods"] is None else (path, list(d["methods"]))
         kw = {KWARG[opt]: d[opt] for opt in ("cps", "use_acq", "full") if d[opt] is not None}
+        if d.get("drop") is not None:
+            kw["drop_names"] = list(d["drop"])
         try:
             with warnings.catch_warnings():
                 warnings.simplefilter("ignore")
@@ -997,9 +1121,9 @@ class C02(Prop):
             data, params = res
         else:
             data, params = res, None
-        if not (isinstance(data, np.ndarray) and data.dtype.names and data.ndim == 2):
+        if not (isinstance(data, np.ndarray) and data.dtype.names is not None and data.ndim == 2):
             return {"bad-return": type(res).__name__}, None
-        names = list(data.dtype.names)
+        names = list(data.dtype.names)  # every field of the returned array, the time field included when it was not dropped
         out = {"names": names, "img": [[[tok(v) for v in data[n][line]] for n in names] for line in range(data.shape[0])],
                "params": None}
         if params is not None:
@@ -1017,7 +1141,16 @@ class C02(Prop):
         if "raises" in ret:
             return {"raises": "any", "class": ret["raises"]}
         conv = int if (via == "binary" and not d["cps"]) else qtok
-        return {"names": ret["names"], "img": [[[conv(v) for v in col] for col in line] for line in ret["img"]],
+        names = list(ret["names"])
+        img = [[[conv(v) for v in col] for col in line] for line in ret["img"]]
+        tf = ret.get("time_field")
+        if tf is not None:  # the time field stayed in the array: last field of the binary import's, first of the CSV import's
+            cols = [[qtok(t) for t in row] for row in tf]
+            if via == "binary":
+                names, img = names + ["Time"], [line + [cols[i]] for i, line in enumerate(img)]
+            else:
+                names, img = ["Time_[Sec]"] + names, [[cols[i]] + line for i, line in enumerate(img)]
+        return {"names": names, "img": img,
                 "params": None if ret["params"] is None else {"times": [[qtok(t) for t in row] for row in ret["params"]["times"]]}}
 
     @staticmethod
@@ -1036,7 +1169,28 @@ class C02(Prop):
             feats.add("call:full=" + word[d["full"]])
             if d["methods"] is None:
                 feats.add("call:methods-omitted")
-            if all(d[opt] is None for opt in ("methods", "cps", "use_acq", "full")):
+            dn = d.get("drop")
+            if dn is not None and returned:
+                kept = sp["ret"]["names"]
+                feats.add("call:drop_names=[]" if not dn else "call:drop_names-given")
+                if sp["ret"].get("time_field") is not None:
+                    feats.add("call:time-field-kept")
+                if sp["via"] == "binary":
+                    all_e = [m["str"] for m in rep["masses"]["spec"]]
+                    gone = [i for i, x in enumerate(all_e) if x not in kept]
+                    if gone and kept:
+                        feats.add("call:element-dropped")
+                        if any(i < len(all_e) - 1 for i in gone):
+                            feats.add("call:element-dropped-not-last")
+                            if d["cps"]:
+                                acc = [m["acctime"] for m in rep["masses"]["spec"]]
+                                if any(acc[j] != acc[j - 1] for j in range(min(gone) + 1, len(acc))):
+                                    feats.add("call:cps+element-dropped+unequal-acctimes")
+                    if not kept and sp["ret"].get("time_field") is None:
+                        feats.add("call:every-field-dropped")
+                elif len(kept) < len(all_csv := (rep["csv"]["spec"].get("names") or [])) if isinstance(rep["csv"]["spec"], dict) else False:
+                    feats.add("call:csv-element-dropped")
+            if all(d.get(opt) is None for opt in ("methods", "cps", "use_acq", "full", "drop")):
                 feats.add("call:all-defaults")
             if "use_acq" in TAKES[fn]:
                 feats.add("call:use_acq=" + word[d["use_acq"]])
@@ -1232,7 +1386,7 @@ class C02(Prop):
             pathlib.Path.iterdir = orig_iterdir
             lg.disabled = old_disabled
 
-        rep = ctx.driver.call("c02.import", **self.request(case), calls=[{k: d[k] for k in ("fn", "methods", "cps", "use_acq", "full")}
+        rep = ctx.driver.call("c02.import", **self.request(case), calls=[{k: d[k] for k in ("fn", "methods", "cps", "use_acq", "full", "drop")}
                                                                          for d in calls])
         sides = {}
         for side in ("model", "spec"):
@@ -1412,6 +1566,18 @@ class C02(Prop):
                 feats.add("log:fail-first")
             if log[-1]["result"] != "Pass":
                 feats.add("log:fail-last")
+        for key, tag in (("xml", "log:xml-stamps"), ("csv", "log:csv-stamps")):
+            ent = case[key]
+            if ent and len(ent) >= 2 and any("stamp" in e for e in ent):
+                st = [e.get("stamp") or "" for e in ent]
+                if st != sorted(st):
+                    feats.add(tag + "-not-increasing-as-text")
+                if len(set(st)) < len(st):
+                    feats.add(tag + "-equal")
+                if any(e.get("stamp") is None for e in ent):
+                    feats.add(tag + "-missing")
+                if key == "xml" and len({x[19:] for x in st if x}) > 1:
+                    feats.add("log:xml-stamps-mixed-offsets-or-widths")
         passed = [e["file"] for e in log if e["result"] == "Pass" and e.get("file")]
         if any(passed.count(x) >= 3 for x in set(passed)):
             feats.add("log:acquired-three-times")
